@@ -20,7 +20,9 @@ class Infeasible(Exception):
 class Ctx:
     """Preconditions + path condition + decision log for one symbolic run."""
 
-    def __init__(self, pre=(), decide_timeout=20, backend='z3old', fork=True, prefix=()):
+    def __init__(self, pre=(), decide_timeout=20, backend='z3old', fork=True, prefix=(), ints=()):
+        self.inproc = None
+        self.ints = tuple(ints)
         self.pre = list(pre)
         self.pc = []
         self.fork = fork
@@ -32,6 +34,29 @@ class Ctx:
         self.cache = {}
         self.decision_queries = 0
         self.forks = 0
+
+    def _q(self, asserts):
+        if self.backend == 'inproc':
+            if self.inproc is None:
+                from .z3py import InProc
+                self.inproc = InProc(timeout_ms=int(self.decide_timeout * 1000), ints=self.ints)
+            v, _ = self.inproc.check(asserts)
+            solver.STATS.add('z3py-inproc', v, 0.0)
+            return dict(verdict=v)
+        return solver.check(asserts, self.decide_timeout, self.backend, want_model=False, tag='d')
+
+    def valid(self, cond):
+        """Is cond entailed by pre & pc?  (no forking)  -> True / False / None (unknown)"""
+        if isinstance(cond, SymBool):
+            cond = cond.t
+        if cond is tm.TRUE:
+            return True
+        r = self._q(self.pre + self.pc + [tm.bnot(cond)])
+        if r['verdict'] == 'unsat':
+            return True
+        if r['verdict'] == 'sat':
+            return False
+        return None
 
     def assume(self, b):
         if isinstance(b, SymBool):
@@ -50,14 +75,12 @@ class Ctx:
             return self.cache[key]
         base = self.pre + self.pc
         self.decision_queries += 1
-        rneg = solver.check(base + [tm.bnot(cond)], self.decide_timeout, self.backend,
-                            want_model=False, tag='d')
+        rneg = self._q(base + [tm.bnot(cond)])
         if rneg['verdict'] == 'unsat':
             self.cache[key] = True
             return True
         self.decision_queries += 1
-        rpos = solver.check(base + [cond], self.decide_timeout, self.backend,
-                            want_model=False, tag='d')
+        rpos = self._q(base + [cond])
         if rpos['verdict'] == 'unsat':
             if rneg['verdict'] == 'unknown':
                 # cond impossible; not-cond not refuted: take not-cond
